@@ -402,6 +402,9 @@ def run(ck):
     ck.not_decided = ('process behaviour and timing; exactly-once delivery over histories; service-file parsing '
                       '(desktop-file.c)')
     for v, prog in ck.programs(thorough_variants=('B',)):
+        from rules import listops
+        rq = ck.rule('C19.10', 'the public list operations do what their names say (dbus/dbus-list.c; abstract interpretation of their CFG over every circular list of 0..3 links with equal and distinct data, every link / anchor / data argument, with and without memory for a new link): resulting order, return value, freed and detached links agree with the specification of append, prepend, insert_after, remove (first match), remove_last / find_last (last match), remove_link, clear, get/pop first/last (link), get_length, length_is_one', 'ABS', breaks='held auto-start messages are delivered out of order or twice: the entries list is not walked in arrival order', floor=15)
+        listops.check(prog, rq)
         c19_1(ck, prog)
         c19_2(ck, prog)
         c19_3(ck, prog)
